@@ -195,7 +195,8 @@ inline uint64_t hash_val(const Val &v, uint64_t h = 0xcbf29ce484222325ULL)
 
 // ---- json-c <-> Val, public accessors only --------------------------------------
 // how string nodes get their contents: 0 constructor; 1 created short then grown with set_string_len
-// (separately allocated storage); 2 created long then shrunk (storage larger than the contents)
+// (separately allocated storage); 2 created long then shrunk (storage larger than the contents); 3 grown, then cut
+// back to a prefix taken from its own buffer
 inline int &build_str_mode()
 {
 	static int m = 0;
@@ -208,6 +209,15 @@ inline json_object *build_string(const std::string &s)
 	{
 		json_object *j = json_object_new_string_len(s.data(), s.empty() ? 0 : 1);
 		json_object_set_string_len(j, s.data(), (int)s.size());
+		return j;
+	}
+	if (m == 3)
+	{
+		// created short, grown (separately allocated storage), then cut back to a prefix of its own buffer
+		std::string big = s + std::string(20, '#');
+		json_object *j = json_object_new_string_len(big.data(), big.empty() ? 0 : 1);
+		json_object_set_string_len(j, big.data(), (int)big.size());
+		json_object_set_string_len(j, json_object_get_string(j), (int)s.size());
 		return j;
 	}
 	if (m == 2)
